@@ -407,6 +407,9 @@ def trace_case(rng, tier, with_aligner=False):
         opts['saliency'] = rng.uniform(0.2, 2.0, size=(1,) * len(lead) + (N,))
         if len(lead) == 1 and _TRC[0] % 6 == 0:
             opts['weight_constant_axis'] = [(-3,), (-3, -1)][(_TRC[0] // 6) % 2]
+    if not with_aligner and name not in mm.INTEGRATION and _TRC[0] % 7 == 2:
+        # every run: saliency = signal power of a very quiet recording (total mass far below 1e-10)
+        opts['saliency'] = rng.uniform(0.2, 2.0, size=(*lead, N)) * 1e-13
     if not with_aligner and _TRC[0] % 5 == 1 and N >= K * (D + 2):
         # a hard start (labels / oracle mask): one-hot, integer or boolean typed, together with fractional saliency weights;
         # balanced classes with more than D + 1 members each
